@@ -456,6 +456,54 @@ Proof.
   - intros o [<-|[<-|[]]]; reflexivity.
 Qed.
 
+(* an output name that pre-exists as a symbolic link to a hand-written file of the directory, and
+   another that is a second name (hard link) of a hand-written file: the names are rebound to the
+   new files, the link's target and the other name keep inode and bytes at every crash point *)
+Definition ex_init_links : fs := mk_init [
+  ("a.go", 0, "package p");
+  ("hw_inside.txt", 1, "package p" ++ ex_nl ++ "// hand written");
+  ("a.shootnew.foo.go", 2, "symlink:hw_inside.txt");
+  ("NOTES_hw.txt", 3, "notes, hand written");
+  ("b.shootnew.bar.go", 3, "notes, hand written")
+].
+Example C17_example_output_names_that_are_links :
+  good ex_cfg2 ex_init_links ex_outs2 /\
+  forall k,
+    let s := exec ex_init_links (firstn k (plan ex_cfg2 ex_init_links ex_outs2)) in
+    visible s "hw_inside.txt" = visible ex_init_links "hw_inside.txt" /\
+    visible s "NOTES_hw.txt" = visible ex_init_links "NOTES_hw.txt" /\
+    (visible s "a.shootnew.foo.go" = Some "symlink:hw_inside.txt" \/
+     visible s "a.shootnew.foo.go" = Some (hdr "-type=Foo,Bar" ++ ex_nl ++ "foo")) /\
+    data s 1 = data ex_init_links 1 /\ data s 2 = "symlink:hw_inside.txt" /\ data s 3 = "notes, hand written".
+Proof.
+  assert (G : good ex_cfg2 ex_init_links ex_outs2).
+  { destruct (mk_init_wf [("a.go", 0, "package p");
+      ("hw_inside.txt", 1, "package p" ++ ex_nl ++ "// hand written");
+      ("a.shootnew.foo.go", 2, "symlink:hw_inside.txt");
+      ("NOTES_hw.txt", 3, "notes, hand written");
+      ("b.shootnew.bar.go", 3, "notes, hand written")]) as (H1 & H2 & _).
+    split; [exact H1|exact H2| |].
+    - apply (shaped_okouts "new").
+      + repeat constructor; cbn; intuition discriminate.
+      + intros o [<-|[<-|[]]]; (split; [reflexivity|]); [exists "17"|exists "18"]; repeat split; discriminate.
+      + intros t [<-|[<-|[]]]; reflexivity.
+    - intros o [<-|[<-|[]]]; reflexivity. }
+  split; [exact G|]. intros k. cbn zeta.
+  pose proof (prefix_of_firstn k (plan ex_cfg2 ex_init_links ex_outs2)) as Hp.
+  assert (Hv : forall n, ~ In n (victims ex_cfg2 (exec ex_init_links (write_ops (c_fd ex_cfg2) ex_outs2)))) by (intros n []).
+  destruct (frame ex_cfg2 ex_init_links ex_outs2 G _ "hw_inside.txt" Hp) as [_ E1];
+    [cbn; intuition discriminate|cbn; intuition discriminate|apply Hv|].
+  destruct (frame ex_cfg2 ex_init_links ex_outs2 G _ "NOTES_hw.txt" Hp) as [_ E2];
+    [cbn; intuition discriminate|cbn; intuition discriminate|apply Hv|].
+  split; [exact E1|]. split; [exact E2|]. split.
+  - destruct (atomic ex_cfg2 ex_init_links ex_outs2 G _ _ Hp (or_introl eq_refl)) as [E|E]; [left|right]; exact E.
+  - assert (K : forall j, j < 4 -> data (exec ex_init_links (firstn k (plan ex_cfg2 ex_init_links ex_outs2))) j = data ex_init_links j).
+    { intros j Hj. apply (old_inodes_keep_bytes ex_cfg2 ex_init_links ex_outs2 G _ _ Hp). exact Hj. }
+    split; [apply K; repeat constructor|]. split; [rewrite K by repeat constructor; reflexivity|].
+    rewrite K by repeat constructor. reflexivity.
+Qed.
+
+
 (* ---- finding K_clean_own_output (fixed by /repo commit 31cd4c3): in the defect branch
    (c_fixed = false), with a [dir] argument and the star passed as a separate argument,
    the guard g_spares fails and the run deletes what it wrote.  The same run in the
